@@ -143,6 +143,19 @@ CHECKS.update({
             "DESIGN.md §3 C07"),
 })
 
+CHECKS.update({
+    "C08": ("fault_enumeration",
+            "fault injection (bomb passes through the public Elaborator, real design faults, raising generator bodies, "
+            "sys.monitoring failpoints at statement lines of the rewriting passes) + offline checker of a trace specification "
+            "over the boundary log of later calls",
+            "Every (pass position x module) of two base designs, 9 real fault kinds, generator failures (direct and nested) and "
+            "failpoints (70 sampled in quick, every line in thorough) followed by every continuation: retry unchanged, export "
+            "the offending modules alone, repair and retry, an unrelated design, a new parent sharing sub-modules. The offending "
+            "set is observed by a hook on elaborate_module_base, not assumed.",
+            "error signature strips the hierarchy-path prefix; fresh(D) is an in-process fresh build (cross-checked by C07)",
+            "DESIGN.md §3 C08"),
+})
+
 NOT_APPLICABLE = {}
 
 
